@@ -34,3 +34,27 @@ Example C12_nonvacuous :
   map (fun m => (o_mid m, o_st m)) (out (fst (run c ops))) = [(2, MsWaitPubcomp); (3, MsWaitPuback)] /\
   c12_window_ok c [[SockOpened 1; Tx 1 (PPublish 1 1 false 0); Tx 1 (PPublish 2 1 false 1); Tx 1 (PPublish 3 1 false 2)]] = false.
 Proof. vm_compute. repeat split; reflexivity. Qed.
+
+(* ------------------------------------------------------------------------------------------
+   The same property on the second-generation session model (coq/theories/Session2): the client's
+   output queue and a transport that may refuse writes are modelled; events distinguish a packet
+   HANDED to the connection from a packet WRITTEN; reconnect() drops what is still queued. *)
+From PahoV Require Import Session2.Model Session2.Check Session2.Statements Session2.C12Proofs.
+
+(* window bound on packets WRITTEN on the current connection *)
+Theorem C12_window_written_with_blocking : forall c ops,
+  cfg_ok c = true -> conforming c ops = true -> c12_window_ok c (optrace c ops) = true.
+Proof. exact c12_window_proved. Qed.
+Print Assumptions C12_window_written_with_blocking.
+
+(* the stronger bound on packets HANDED to the connection (queued or written) *)
+Theorem C12_window_handed_with_blocking : forall c ops,
+  cfg_ok c = true -> conforming c ops = true -> c12_handed_ok c (optrace c ops) = true.
+Proof. exact c12_handed_proved. Qed.
+Print Assumptions C12_window_handed_with_blocking.
+
+(* queue bound *)
+Theorem C12_queue_bound_with_blocking : forall c ops,
+  cfg_ok c = true -> conforming c ops = true -> c12_queue_ok c (optrace c ops) = true.
+Proof. exact c12_queue_proved. Qed.
+Print Assumptions C12_queue_bound_with_blocking.
